@@ -191,3 +191,81 @@ Proof.
   destruct (steps_enc_cap_mono ops s Hops) as [Hm _]. unfold enc_obj_cap in Hm. rewrite Hx, Hx' in Hm. lia.
 Qed.
 End H.
+
+(* the decoder: the pair (blocks, bitmap bits) *)
+Section HD.
+Variable junk : N -> N -> N -> N.
+
+Lemma dec_add_original_work x i sh x' : dec_add_original x i sh = inl x' ->
+  dw_cap (d_work x') = dw_cap (d_work x) /\ dw_bits (d_work x') = dw_bits (d_work x).
+Proof.
+  unfold dec_add_original.
+  repeat match goal with |- context [if ?b then _ else _] => destruct b; try discriminate end.
+  intros [= <-]. split; reflexivity.
+Qed.
+Lemma dec_add_recovery_work x i sh x' : dec_add_recovery x i sh = inl x' ->
+  dw_cap (d_work x') = dw_cap (d_work x) /\ dw_bits (d_work x') = dw_bits (d_work x).
+Proof.
+  unfold dec_add_recovery.
+  repeat match goal with |- context [if ?b then _ else _] => destruct b; try discriminate end.
+  intros [= <-]. split; reflexivity.
+Qed.
+Lemma dec_decode_work ep x probes :
+  dw_cap (d_work (fst (dec_decode junk ep x probes))) = dw_cap (d_work x) /\
+  dw_bits (d_work (fst (dec_decode junk ep x probes))) = dw_bits (d_work x).
+Proof.
+  unfold dec_decode.
+  repeat match goal with |- context [if ?b then _ else _] => destruct b end; split; reflexivity.
+Qed.
+
+Lemma step_dec_cap_mono s o : keeps_dec o = true ->
+  dec_obj_cap s <= dec_obj_cap (fst (step junk s o)) /\ dec_obj_bits s <= dec_obj_bits (fst (step junk s o)).
+Proof.
+  intros H. unfold step, dec_obj_cap, dec_obj_bits. destruct o; try discriminate H; cbn.
+  - destruct (enc_make _ _ _ _ _ _) as [[x' a]|err]; cbn; split; lia.
+  - destruct c; cbn; destruct (enc_make _ _ _ _ _ _) as [[x' a]|err]; cbn; split; lia.
+  - destruct (s_enc s); cbn; split; lia.
+  - destruct (s_enc s); cbn; [destruct (enc_make _ _ _ _ _ _) as [[x' a]|err]|]; cbn; split; lia.
+  - destruct (s_enc s); cbn; [destruct (enc_add _ _)|]; cbn; split; lia.
+  - destruct (s_enc s); cbn; [destruct (enc_encode _ _ _ _) as [x' r]; destruct r|]; cbn; split; lia.
+  - destruct (s_dec s) as [x|] eqn:Hx; cbn; [|rewrite Hx; split; lia].
+    destruct (dec_make _ _ _ _ _ _) as [[x' a]|err] eqn:E; cbn; [|rewrite Hx; split; lia].
+    apply dec_make_cap in E. split; lia.
+  - destruct (s_dec s) as [x|] eqn:Hx; cbn; [|rewrite Hx; split; lia].
+    destruct (dec_add_original x idx shard) as [x'|err] eqn:E; cbn; [|rewrite Hx; split; lia].
+    apply dec_add_original_work in E. split; lia.
+  - destruct (s_dec s) as [x|] eqn:Hx; cbn; [|rewrite Hx; split; lia].
+    destruct (dec_add_recovery x idx shard) as [x'|err] eqn:E; cbn; [|rewrite Hx; split; lia].
+    apply dec_add_recovery_work in E. split; lia.
+  - destruct (s_dec s) as [x|] eqn:Hx; cbn; [|rewrite Hx; split; lia].
+    pose proof (dec_decode_work (s_epoch s) x probes) as Hc.
+    destruct (dec_decode junk (s_epoch s) x probes) as [x' r] eqn:E. cbn [fst] in Hc.
+    destruct r; cbn; rewrite ?Hx; split; lia.
+  - split; lia.
+  - split; lia.
+  - destruct (oneshot_encode _ _ _ _ _); cbn; split; lia.
+  - destruct (oneshot_decode _ _ _ _ _ _); cbn; split; lia.
+Qed.
+
+Lemma steps_dec_cap_mono ops : forall s, forallb keeps_dec ops = true ->
+  dec_obj_cap s <= dec_obj_cap (steps junk s ops) /\ dec_obj_bits s <= dec_obj_bits (steps junk s ops).
+Proof.
+  induction ops as [|o ops IH]; intros s H; [cbn; split; lia|].
+  cbn [forallb] in H. apply andb_true_iff in H. destruct H as [Ho Hops].
+  destruct (step_dec_cap_mono s o Ho) as [H1 H2].
+  destruct (IH (fst (step junk s o)) Hops) as [H3 H4]. unfold steps in *. cbn [fold_left]. split; lia.
+Qed.
+
+Theorem dec_history_no_alloc s ops K R sb x x' :
+  s_dec s = Some x -> forallb keeps_dec ops = true -> s_dec (steps junk s ops) = Some x' ->
+  dec_need (rate_of (d_codec x') K R) K R sb <= dw_cap (d_work x) ->
+  dec_bits (rate_of (d_codec x') K R) K R <= dw_bits (d_work x) ->
+  s_alloc (fst (step junk (steps junk s ops) (DReset K R sb))) = false.
+Proof.
+  intros Hx Hops Hx' Hneed Hbits.
+  destruct (s_alloc (fst (step junk (steps junk s ops) (DReset K R sb)))) eqn:E; [|reflexivity].
+  apply (dec_reset_alloc_only_if_needed junk _ x') in E; [|exact Hx'].
+  destruct (steps_dec_cap_mono ops s Hops) as [Hm Hb]. unfold dec_obj_cap, dec_obj_bits in Hm, Hb.
+  rewrite Hx, Hx' in Hm, Hb. lia.
+Qed.
+End HD.
